@@ -539,6 +539,21 @@ Rebind(n, pvs, notifyParents, skip) ==
 ---------------------------------------------------------------------------
 (* copying, sealing, scopes, handles                                       *)
 
+\* Constructors called with values the user already holds: pg.Dict(a=v1, b=v2) / pg.List([v1, v2]) / A(x=v1, y=v2).
+\* Each argument goes through relocate-or-copy like any other write, so a node given twice is stored once as itself
+\* and once as a copy, and an attached node is copied.
+Construct(k, vds) ==
+  /\ act' = <<"Construct", k, vds>>
+  /\ "construct" \in Acts /\ FreeSet(St) # {}
+  /\ LET r == MinOf(FreeSet(St))
+         s0 == IF k = "obj" THEN [NewNode(St, r, "obj", NULL, NULL) EXCEPT !.ditems[r] = << <<1, PNONE>>, <<2, PNONE>> >>]
+               ELSE NewNode(St, r, k, NULL, NULL)
+         w == IF k = "list" THEN AppendSeq(s0, r, vds)
+              ELSE WriteDSeq(s0, r, [i \in 1..Len(vds) |-> <<i, vds[i]>>])
+     IN /\ \A i \in 1..Len(vds) : vds[i] # PNONE
+        /\ w.ok
+        /\ Commit(w.s, Ok(r), {})
+
 Clone(n, deep) ==                          \* n.clone(deep) / copy.copy / copy.deepcopy
   /\ act' = <<"Clone", n, deep>>
   /\ "clone" \in Acts /\ kind[n] # "free"
@@ -691,11 +706,13 @@ NextAny(n) ==
      \/ Has("flags") /\ \E b \in P(BOOLEAN) : Seal(n, b) \/ SetAccW(n, b)
      \/ Has("forget") /\ Forget(n)
      \/ Has("facts") /\ ReadFacts(n)
+NextConstruct ==
+  Has("construct") /\ \E k \in P({"dict", "list", "obj"}), vds \in P(SeqsUpTo(VD, 2) \ {<<>>}) : Construct(k, vds)
 NextScope ==
   \/ Has("scope") /\ (\/ \E a \in P({"T", "F", "N"}) : EnterSealed(a) \/ EnterAccW(a)
                        \/ ExitSealed \/ ExitAccW)
   \/ Has("nscope") /\ (ExitNotify \/ \E b \in P(BOOLEAN) : EnterNotify(b))
-Next == (\E n \in Nodes : NextDict(n) \/ NextList(n) \/ NextAny(n)) \/ NextScope
+Next == (\E n \in Nodes : NextDict(n) \/ NextList(n) \/ NextAny(n)) \/ NextScope \/ NextConstruct
 
 Spec == Init /\ [][Next]_vars
 
